@@ -82,6 +82,24 @@ pub fn score_all_routes(a: &Content, b: &Content) -> Result<u32, String> {
         guarded(|| td.init_from(&dsa))?;
         routes.push(("target(init_from short dual).compare(long)", guarded(|| td.compare(&lnb))?));
     }
+    // the checked position-array entry point, at the effective log block size (31 for block hash 2 at the largest size)
+    {
+        use ssdeep::internal_comparison::{BlockHashPositionArray, BlockHashPositionArrayImpl};
+        let per = |x: &[u8], y: &[u8], eff: u8| -> Result<u32, String> {
+            let mut pa = BlockHashPositionArray::new();
+            guarded(|| pa.init_from(x))?;
+            guarded(|| pa.score_strings(y, eff))
+        };
+        let pa_score: Option<u32> = match d {
+            0 if !equal => Some(per(&na1, &nb1, a.0)?.max(per(&na2, &nb2, a.0 + 1)?)),
+            -1 => Some(per(&na2, &nb1, b.0)?),
+            1 => Some(per(&na1, &nb2, a.0)?),
+            _ => None,
+        };
+        if let Some(s) = pa_score {
+            routes.push(("BlockHashPositionArray::score_strings at the effective block size", s));
+        }
+    }
     for (name, s) in &routes {
         if *s != exp {
             return Err(format!("{} = {} but fuzzy_compare = {}   [{} | {}]", name, s, exp, ta, tb));
